@@ -36,6 +36,7 @@ type stageTracker struct {
 	state              trackerpkg.State // stage execute stage
 	startTime, endTime time.Time        // stage start/end time
 	stats              *models.StageStats
+	finished           bool // if the hooks(stats/complete) of stage were invoked
 }
 
 // pipelineStateMachine represents pipeline stage machine which track all stage execution state under this pipeline.
@@ -97,31 +98,7 @@ func (sm *pipelineStateMachine) executeStage(parentStageID, stageID string, stag
 
 // completeStage tracks stage complete execution state.
 func (sm *pipelineStateMachine) completeStage(stageID string, err error) {
-	sm.mutex.Lock()
-	if s, ok := sm.stages[stageID]; ok {
-		var errMsg string
-		if err != nil {
-			s.state = trackerpkg.ErrorState
-			errMsg = err.Error()
-		} else {
-			s.state = trackerpkg.CompleteState
-		}
-
-		s.stats.Operators = s.stage.Stats()
-		s.endTime = time.Now()
-		s.stats.End = s.endTime.UnixNano()
-		s.stats.Cost = s.endTime.Sub(s.startTime).Nanoseconds()
-		s.stats.State = s.state.String()
-		s.stats.ErrMsg = errMsg
-		s.stats.Async = s.stage.IsAsync()
-
-		s.stage.Complete()
-	}
-	if err != nil && sm.err == nil {
-		// keep the first failure, the pipeline must report it even if another stage completes last
-		sm.err = err
-	}
-	sm.mutex.Unlock()
+	sm.finishStage(stageID, err)
 
 	if sm.pending.Dec() == 0 {
 		// all stages execute completed, every stage latched its failure before decreasing pending
@@ -131,6 +108,44 @@ func (sm *pipelineStateMachine) completeStage(stageID string, err error) {
 
 		sm.complete(pipelineErr)
 	}
+}
+
+// finishStage latches the failure of stage, tracks the stats of stage and invokes the complete hook of stage.
+// NOTE: the hooks of stage(Stats/Complete) maybe panic, the lock must be released(defer) because the panic handler
+// completes the stage again(with the panic as failure), then the hooks which were invoked must not be invoked again.
+func (sm *pipelineStateMachine) finishStage(stageID string, err error) {
+	sm.mutex.Lock()
+	defer sm.mutex.Unlock()
+
+	if err != nil && sm.err == nil {
+		// keep the first failure, the pipeline must report it even if another stage completes last
+		sm.err = err
+	}
+	s, ok := sm.stages[stageID]
+	if !ok {
+		return
+	}
+	var errMsg string
+	if err != nil {
+		s.state = trackerpkg.ErrorState
+		errMsg = err.Error()
+	} else {
+		s.state = trackerpkg.CompleteState
+	}
+	s.stats.State = s.state.String()
+	s.stats.ErrMsg = errMsg
+	if s.finished {
+		return
+	}
+	s.finished = true
+
+	s.stats.Operators = s.stage.Stats()
+	s.endTime = time.Now()
+	s.stats.End = s.endTime.UnixNano()
+	s.stats.Cost = s.endTime.Sub(s.startTime).Nanoseconds()
+	s.stats.Async = s.stage.IsAsync()
+
+	s.stage.Complete()
 }
 
 // complete executes pipeline completed, invokes completed callback.
